@@ -39,7 +39,8 @@ StrLt(s, set) == s \in set
 
 ---------------------------------------------------------------------------
 (* Commands (AMF0, type 20): name, transaction id, arguments.                                   *)
-ParseFail == {"empty", "1byte", "notid", "tidstr", "namenum", "cutname", "cuttid"}
+\* lstrmax / lstrwrap: the command name is an AMF0 long string announcing 2^32-1 / 2^32-4 bytes
+ParseFail == {"empty", "1byte", "notid", "tidstr", "namenum", "cutname", "cuttid", "lstrmax", "lstrwrap"}
 ConnectOk == {"ok", "ok3", "deepok"}
 PublishOk == {"ok", "nolast", "longstr", "emptyname", "query", "dots"}
 PlayOk    == {"ok", "nolast", "longstr", "emptyname"}
